@@ -162,16 +162,18 @@ Fixpoint is_prefix (d p : pset) : bool :=
   | _ :: _, [] => false
   end.
 
-(* report.files: FileTree.insert adds each member's own table to every ancestor *)
+(* report.files: FileTree.insert adds each member's own table to every ancestor,
+   except for symbolic links, whose table stays on their own row *)
 Definition tree_rows (events : list event) (enumeration : list pfile) : data :=
   let files := iter_codebase enumeration in
-  let tabs := map (fun f => (pf_path f, sm_build (file_contribs events f))) files in
-  let root := sm_build (flat_map snd tabs) in
+  let tabs := map (fun f => (pf_path f, (is_link f, sm_build (file_contribs events f)))) files in
+  let solid := filter (fun t => negb (fst (snd t))) tabs in
+  let root := sm_build (flat_map (fun t => snd (snd t)) solid) in
   let ps := platforms_of root in
   let dirs := set_of pcmp (flat_map (fun f => prefixes (pf_path f)) files) in
   DList [of_list (fun d => DList [enc_pset d;
-                                   tree_meta ps (sm_build (flat_map snd (filter (fun t => is_prefix d (fst t)) tabs)))]) dirs;
-         of_list (fun t => DList [enc_pset (fst t); tree_meta ps (snd t)]) tabs].
+                                   tree_meta ps (sm_build (flat_map (fun t => snd (snd t)) (filter (fun t => is_prefix d (fst t)) solid)))]) dirs;
+         of_list (fun t => DList [enc_pset (fst t); tree_meta ps (snd (snd t))]) tabs].
 
 (* ----- the driver entry ----- *)
 (* T case: (T rows (perm ...) (porder ...))  : a table given as rows in dict insertion order,
@@ -218,7 +220,7 @@ Definition f_answer (files : list pfile) (events : list event) : data :=
   let it := iter_codebase files in
   DList [enc_rows (get_setmap events it);
          of_list (fun f => DList [enc_pset (pf_path f);
-                                  of_list (fun iv => DList [of_list DInt (snd iv); enc_pset (assoc_of events (pf_path f) (fst iv))])
+                                  of_list (fun iv => DList [of_list DInt (snd iv); enc_pset (assoc_of events (pf_real f) (fst iv))])
                                           (number 0 (pf_nodes f))]) it].
 
 Definition run_Ff (files : list pfile) (events : list event) (perms : list (list Z * list Z)) : data :=
